@@ -221,6 +221,33 @@ class World:
             s, r = self.call("mkcalendar", "MKCALENDAR", target, [X.XML_CT], X.mkcalendar(props))
         elif how == "mkcol-ext":
             s, r = self.call("mkcol-ext", "MKCOL", target, [X.XML_CT], X.mkcol_ext(kind, props))
+        elif how == "mkcol-ext-rt-last":
+            s, r = self.call("mkcol-ext", "MKCOL", target, [X.XML_CT], X.mkcol_ext(kind, props, rt_last=True))
+        elif how == "mkcol-then-proppatch":
+            # a plain collection that is made a calendar / address book afterwards
+            s, r = self.call("mkcol", "MKCOL", target, [], None)
+            if self.success(s.eff) and colpath not in self.cols:
+                c = Col(colpath, "plain", "tree", "file")
+                self.cols[colpath] = c
+                par = self.parent_of(colpath)
+                if par in self.cols:
+                    self.cols[par].subcols.add(colpath)
+                self.notify(s, r)
+                s, r = self.call("proppatch-resourcetype", "PROPPATCH", target, [X.XML_CT], X.proppatch_resourcetype(kind, props))
+                ok = False
+                if r.status == 207:
+                    try:
+                        rs, _ = X.parse_multistatus(r.body)
+                        ok = bool(rs) and all(v[0] == 200 for resp in rs for v in resp.props.values()) and "{DAV:}resourcetype" in rs[0].props
+                    except Exception:
+                        ok = False
+                if ok:
+                    c.kind = kind
+                    for (k, v) in props:
+                        c.props[k] = v
+                    c.dirty = True
+            self.notify(s, r)
+            return s, r
         else:
             s, r = self.call("mkcol", "MKCOL", target, [], None)
         if self.success(s.eff) and colpath not in self.cols:
